@@ -79,7 +79,7 @@ def oracle(case, obs):
     src = hist.LAST["msteps"][0]["src"]
     opt = case["steps"][0]["tree"]
     if opt == "all":
-        return None if obs[0].get("err") == "refused" else {"invalid_tree_value_not_refused": obs[0]}
+        return None if "err" in obs[0] else {"invalid_tree_value_not_refused": obs[0]}
     if opt == "noroot":
         opt = None
     if obs[0] != {"ok": True}:
